@@ -124,6 +124,11 @@ fn main() {
                 .map(PathBuf::from)
                 .unwrap_or_else(|| PathBuf::from(format!("{}.db", out)));
             rt.block_on(run(&a.str_or("ops", "cases.ops"), &out, a.get("stats"), work.clone()));
+            // every instance's writer thread only ends when the runtime drops its tasks (the hourly
+            // `optimize` task keeps the writer's channel open); let those threads close their SQLite
+            // connections before the process runs its exit handlers (otherwise: sporadic heap corruption at exit)
+            rt.shutdown_timeout(std::time::Duration::from_secs(5));
+            std::thread::sleep(std::time::Duration::from_millis(500));
             let _ = std::fs::remove_dir_all(&work);
         }
         "race" => {
